@@ -96,13 +96,17 @@ void harness(void)
     /* node initialisation / NMT reset: every PDO is cleared, those with a communication record are (re)activated */
     __CPROVER_assume(!H_MAPN_OK || H_MAPN <= VW_MAPN_MAX);
     for (int i = 1; i <= 8; i++) { __CPROVER_assume(((uint8_t)H_MAPENT[i] >> 3) >= 1); }
-    for (int k = 0; k < CO_TPDO_N; k++) { S.TPdo[k] = 0; V_NODE.TPdo[k].Flags = 0; }      /* fresh SYNC tables (COSyncInit runs first) */
-    for (int k = 0; k < CO_RPDO_N; k++) { S.RPdo[k] = 0; V_NODE.RPdo[k].Flag = 0; }
+    /* pre-state: ANY well-formed PDO / SYNC state - the call site CONmtSetMode(OPERATIONAL) runs these on a node that may have
+     * been OPERATIONAL before (PDOs active, SYNC tables filled, timers running), not only on fresh tables */
+    /* (a PDO without communication record has never been activated - the dictionary does not change its structure; that it then
+     *  STAYS off is the clause below, so the assumption is inductive) */
+    if (!H_COMM0_OK) { for (int k = 0; k < CO_TPDO_N; k++) { __CPROVER_assume(V_NODE.TPdo[k].Flags == 0 && V_NODE.TPdo[k].EvTmr == -1 && V_NODE.TPdo[k].InTmr == -1); } for (int k = 0; k < CO_RPDO_N; k++) { __CPROVER_assume(V_NODE.RPdo[k].Flag == 0); } }
+    uint32_t want = 0; for (int k = 0; k < CO_TPDO_N; k++) { want += (V_NODE.TPdo[k].EvTmr >= 0 ? 1u : 0u) + (V_NODE.TPdo[k].InTmr >= 0 ? 1u : 0u); }
 #if VW_OP == 4
     COTPdoInit(V_NODE.TPdo, &V_NODE);
-    __CPROVER_assert(N_TDEL == 0 && V_NODE.TPdo[G_T].Node == &V_NODE && V_NODE.TPdo[G_T].InTmr == -1 && V_NODE.TPdo[G_T].ObjNum <= 8, "init: every TPDO is linked to the node, owns no inhibit timer, maps at most 8 objects; no timer is deleted");
+    __CPROVER_assert(N_TDEL == want && V_NODE.TPdo[G_T].Node == &V_NODE && V_NODE.TPdo[G_T].InTmr == -1 && V_NODE.TPdo[G_T].ObjNum <= 8, "init: the timers of a previous activation are deleted (each once, no other); every TPDO is linked to the node, owns no inhibit timer, maps at most 8 objects");
     __CPROVER_assert(!H_COMM0_OK ==> (V_NODE.TPdo[G_T].Identifier == CO_TPDO_COBID_OFF && V_NODE.TPdo[G_T].ObjNum == 0 && V_NODE.TPdo[G_T].EvTmr == -1 && S.TPdo[G_T] == 0 && N_TCRE == 0), "init: a TPDO without communication record stays off");
-    __CPROVER_assert(((V_NODE.TPdo[G_T].Flags & CO_TPDO_FLG_S__) != 0) == (S.TPdo[G_T] != 0) && (S.TPdo[G_T] == 0 || S.TPdo[G_T] == &V_NODE.TPdo[G_T]) && S.RPdo[G_R] == 0, "init: WF_SYNC established; RPDO table untouched");
+    __CPROVER_assert(((V_NODE.TPdo[G_T].Flags & CO_TPDO_FLG_S__) != 0) == (S.TPdo[G_T] != 0) && (S.TPdo[G_T] == 0 || S.TPdo[G_T] == &V_NODE.TPdo[G_T]) && SR_SAME(G_R) && RF_SAME(G_R), "init: WF_SYNC kept for every TPDO; RPDO table and buffered frames untouched");
     __CPROVER_assert(N_TCRE <= CO_TPDO_N, "init: at most one event timer per TPDO");
     if (H_COMM0_OK && V_NODE.TPdo[G_T].Identifier != CO_TPDO_COBID_OFF) { __CPROVER_assert(0, "REACH:a"); }
     if (!H_COMM0_OK) { __CPROVER_assert(0, "REACH:b"); }
@@ -110,7 +114,7 @@ void harness(void)
     CORPdoInit(V_NODE.RPdo, &V_NODE);
     __CPROVER_assert(N_TDEL == 0 && N_TCRE == 0 && V_NODE.RPdo[G_R].Node == &V_NODE && V_NODE.RPdo[G_R].ObjNum <= 8, "init: every RPDO is linked to the node and maps at most 8 slots; no timer is touched");
     __CPROVER_assert(!H_COMM0_OK ==> (V_NODE.RPdo[G_R].Identifier == 0 && V_NODE.RPdo[G_R].ObjNum == 0 && S.RPdo[G_R] == 0), "init: an RPDO without communication record receives nothing");
-    __CPROVER_assert(((V_NODE.RPdo[G_R].Flag & CO_RPDO_FLG_S_) != 0) == (S.RPdo[G_R] != 0) && (S.RPdo[G_R] == 0 || S.RPdo[G_R] == &V_NODE.RPdo[G_R]) && S.TPdo[G_T] == 0, "init: WF_SYNC established; TPDO table untouched");
+    __CPROVER_assert(((V_NODE.RPdo[G_R].Flag & CO_RPDO_FLG_S_) != 0) == (S.RPdo[G_R] != 0) && (S.RPdo[G_R] == 0 || S.RPdo[G_R] == &V_NODE.RPdo[G_R]) && ST_SAME(G_T), "init: WF_SYNC kept for every RPDO (an RPDO that is no longer synchronous leaves the SYNC table); TPDO table untouched");
     if (H_COMM0_OK && (V_NODE.RPdo[G_R].Flag & CO_RPDO_FLG__E)) { __CPROVER_assert(0, "REACH:a"); }
     if (!H_COMM0_OK) { __CPROVER_assert(0, "REACH:b"); }
 #endif
